@@ -140,6 +140,19 @@ def h_report(ctx, sub, ws, we, nd, t, twin=False, concrete_cls=False):
     ctx.holds("decoded report returns the same request id, step id, error code, failure data", sym_and(*conds))
     ctx.holds("repack identical", u.pack() == raw)
     ctx.holds("decoded == original", u == tm)
+    # one UnpackParams object serves a whole stream of reports: decoding does not change it, and the order of the reports
+    # does not matter
+    shared = UnpackParams(t, ws, we)
+    rq0 = RequestId.unpack(bytes([0x18, 0x2A, 0xC0, 0x07]))
+    for s0 in (2, 8, 4, 1):
+        fn0 = FailureNotice(PacketFieldEnum.with_byte_size(we, 3), b"\x42") if s0 in FAIL_SUBS else None
+        call(Service1Tm.unpack, bytes(Service1Tm(0x11, s0, bytes(range(t)), VerificationParams(rq0, None, fn0)).pack()), shared)
+    ctx.holds("the caller's UnpackParams object is unchanged by decoding", shared.timestamp_len == t and shared.bytes_step_id == ws
+              and shared.bytes_err_code == we, "timestamp_len=%s bytes_step_id=%s bytes_err_code=%s" % (
+                  shared.timestamp_len, shared.bytes_step_id, shared.bytes_err_code))
+    e, u9 = call(Service1Tm.unpack, raw, shared)
+    ctx.holds("decoded with an UnpackParams object that already served other reports: same result", e is None and sym_and(
+        *(conds[2:] + [u9 == tm, u9.pack() == raw, u9.tc_req_id.pack() == info["req_raw"]])), exc_name(e))
     others = []
     for s2 in (6, 1, 5, 8):
         sid = PacketFieldEnum.with_byte_size(ws, 1) if s2 in STEP_SUBS else None
@@ -189,6 +202,16 @@ def h_helpers(ctx, sub):
                                                                          tm.tc_req_id.pack() == tcraw[:4]))
     u = Service1Tm.unpack(tm.pack(), UnpackParams(0, 1, 2))
     ctx.holds("helper-built report round-trips", sym_and(u == tm, u.tc_req_id == RequestId.from_pus_tc(tc)))
+    # the sender re-uses its TC object for the next command: reports built for the earlier command keep its request id
+    before = ctx.bytes_of(list(items_of(tm.pack())))
+    old_id = ctx.bytes_of(list(items_of(tcraw[:4])))
+    tc.seq_count = ctx.int("next_sc", 0, 16383)
+    tc.apid = ctx.int("next_apid", 0, 2047)
+    again = tm.pack()
+    ctx.holds("a report packed after the TC object moved on still carries the request id it was built for",
+              sym_and(again == before, again[13:17] == old_id) if len(again) >= 17 else False)
+    e, u2 = call(Service1Tm.unpack, again, UnpackParams(0, 1, 2))
+    ctx.holds("...and decodes to that request id", e is None and u2.tc_req_id.pack() == old_id, exc_name(e))
 
 
 def cases(tier):
